@@ -1,9 +1,9 @@
 package neo
 
 import (
+	"errors"
 	"github.com/joeqian10/neo-gogogo/block"
 	"github.com/joeqian10/neo-gogogo/helper"
-	tx2 "github.com/joeqian10/neo-gogogo/tx"
 	"github.com/ontio/ontology-crypto/keypair"
 	"github.com/polynetwork/poly/common"
 	"github.com/polynetwork/poly/core/types"
@@ -11,6 +11,7 @@ import (
 	scom "github.com/polynetwork/poly/native/service/header_sync/common"
 	"github.com/polynetwork/poly/native/storage"
 	"github.com/polynetwork/poly/zzsym"
+	"strings"
 )
 
 func zzAddr(name string) common.Address {
@@ -60,17 +61,10 @@ func zzGenesis() (err error, db *storage.CacheDB, chainID uint64, operator commo
 	if err != nil {
 		panic("zz: operator")
 	}
-	var next helper.UInt160
-	copy(next[:], zzsym.Bytes("nextConsensus", 20))
-	hdr := &NeoBlockHeader{&block.BlockHeader{Version: 0, Timestamp: 1468595301, Index: zzsym.U32("index"), NextConsensus: next,
-		ConsensusData: 7, Witness: &tx2.Witness{InvocationScript: []byte{0}, VerificationScript: []byte{81}}}}
-	sink := common.NewZeroCopySink(nil)
-	if hdr.Serialization(sink) != nil {
-		panic("zz: header")
-	}
+	genesis := zzsym.Bytes("genesisHeader", 4) // decoded by the stand-in below
 	chainID = 4
-	p := &scom.SyncGenesisHeaderParam{ChainID: chainID, GenesisHeader: sink.Bytes()}
-	sink = common.NewZeroCopySink(nil)
+	p := &scom.SyncGenesisHeaderParam{ChainID: chainID, GenesisHeader: genesis}
+	sink := common.NewZeroCopySink(nil)
 	p.Serialization(sink)
 	signers = zzSigners()
 	err = NewNEOHandler().SyncGenesisHeader(zzNativeBy(db, sink.Bytes(), signers))
@@ -78,22 +72,33 @@ func zzGenesis() (err error, db *storage.CacheDB, chainID uint64, operator commo
 }
 
 func ZZ_C18_NeoGenesisNeedsOperator() {
-	db0 := zzNewCacheDB()
-	_ = db0
 	err, db, chainID, operator, signers := zzGenesis()
 	cons, _ := getConsensusValByChainId(zzNative(db, nil), chainID)
+	if !zzSignedBy(signers, operator) {
+		// stated on the refusal reason so that the check does not depend on what the header decoder does afterwards
+		zzsym.Assert(err != nil && strings.Contains(err.Error(), "checkWitness"), "SyncGenesisHeader without the operator's witness fails at the witness check")
+		zzsym.Assert(cons == nil, "a refused SyncGenesisHeader stores no trust root")
+		zzsym.Cover("unwitnessed")
+	}
 	if err == nil && cons != nil {
 		zzsym.Assert(zzSignedBy(signers, operator), "a side chain's trust root is installed only by a transaction witnessed by the operator address of the current consensus validators")
 		zzsym.Cover("installed")
-	}
-	if !zzSignedBy(signers, operator) {
-		zzsym.Assert(err != nil, "SyncGenesisHeader without the operator's witness fails")
-		zzsym.Assert(cons == nil, "a refused SyncGenesisHeader stores no trust root")
-		zzsym.Cover("unwitnessed")
 	}
 }
 
 func ZZ_C18_NeoGenesisNeedsOperator_witness() {
 	err, _, _, _, _ := zzGenesis()
 	zzsym.Assert(err != nil, "WITNESS: some genesis header is installed")
+}
+
+// engine-only stand-in for (*NeoBlockHeader).Deserialization (spec "overrides"): neo-gogogo decodes with encoding/binary
+// (reflection). Any byte string is either rejected or decodes to a header with arbitrary index and next-consensus.
+func zzHeaderDecode(this *NeoBlockHeader, source *common.ZeroCopySource) error {
+	if !zzsym.Bool("header-wellformed") {
+		return errors.New("zz: malformed header")
+	}
+	var next helper.UInt160
+	copy(next[:], zzsym.Bytes("nextConsensus", 20))
+	this.BlockHeader = &block.BlockHeader{Index: zzsym.U32("index"), NextConsensus: next}
+	return nil
 }
